@@ -118,20 +118,36 @@ def run(repo, rep, tier):
                                     'operation parameter itself')
         # instance-level helper under isinstance(ObjectName,
         # CIMInstanceName), class-level after it
+        from ..cfg import stmt_facts as _sf13
         for f in (a, b):
-            inst_ok = False
-            for n in walk_no_nested(f.node):
-                if isinstance(n, ast.If) and \
-                        norm(n.test) == 'isinstance(ObjectName, ' \
-                        'CIMInstanceName)':
-                    inner = {dotted(c.func)[5:] for s in n.body
-                             for c in ast.walk(s)
-                             if isinstance(c, ast.Call) and dotted(c.func)
-                             and dotted(c.func).startswith('self._get_')}
-                    if any(x.endswith('instnames') or
-                           x.endswith('instancenames') for x in inner) and \
-                            not any(x.endswith('classnames') for x in inner):
-                        inst_ok = True
+            # the instance-level helper runs under isinstance(ObjectName,
+            # CIMInstanceName), the class-level helper under its negation
+            # (whatever the branch layout)
+            inst_ok = True
+            seen_inst = False
+            for st_, (fs_, _t) in _sf13(f.node).items():
+                if isinstance(st_, (ast.If, ast.For, ast.While, ast.Try,
+                                    ast.With)):
+                    continue
+                known = None
+                for t_, pol_ in fs_:
+                    if norm(t_) == 'isinstance(ObjectName, CIMInstanceName)':
+                        known = pol_
+                for c_ in ast.walk(st_):
+                    if not isinstance(c_, ast.Call):
+                        continue
+                    d_ = dotted(c_.func) or ''
+                    if not d_.startswith('self._get_'):
+                        continue
+                    if d_.endswith('instnames') or \
+                            d_.endswith('instancenames'):
+                        seen_inst = True
+                        if known is not True:
+                            inst_ok = False
+                    elif d_.endswith('classnames'):
+                        if known is not False:
+                            inst_ok = False
+            inst_ok = inst_ok and seen_inst
             r1.ob(inst_ok, f.name + ':level-dispatch')
             if not inst_ok:
                 rep.finding(r1, f.qualname, 'isinstance(ObjectName, '
@@ -782,47 +798,77 @@ def results_are_stamped_on_copies(repo, rep):
                         isinstance(c.func, ast.Attribute) and
                         c.func.attr == 'append' and
                         norm(c.func.value) == name]
-                if apps and all(c.args and fresh_elem(c.args[0])
-                                for c in apps):
+                if apps and all(c.args and (fresh_elem(c.args[0]) or (
+                        isinstance(c.args[0], ast.Name) and
+                        fresh_local(f, c.args[0].id)))
+                        for c in apps):
                     continue
             return False
         return True
+
+    def fresh_local(f, name, depth=0):
+        """every binding of the local is a new object: a copy, a
+        constructor call, the copying reader - or an element of a list of
+        such objects"""
+        if name in f.params or depth > 2:
+            return False
+        binds = []
+        for n in walk_no_nested(f.node):
+            if isinstance(n, ast.Assign) and len(n.targets) == 1 and \
+                    isinstance(n.targets[0], ast.Name) and \
+                    n.targets[0].id == name:
+                binds.append(('assign', n.value))
+            elif isinstance(n, (ast.For, ast.comprehension)) and \
+                    isinstance(n.target, ast.Name) and n.target.id == name:
+                binds.append(('iter', n.iter))
+        if not binds:
+            return False
+        for kind_, e in binds:
+            if kind_ == 'assign':
+                if fresh_elem(e):
+                    continue
+                if isinstance(e, ast.Call) and \
+                        dotted(e.func) == 'self._get_bare_instance' and \
+                        any(k.arg == 'copy' and norm(k.value) == 'True'
+                            for k in e.keywords):
+                    continue
+                if isinstance(e, ast.Name) and fresh_local(f, e.id,
+                                                           depth + 1):
+                    continue
+                return False
+            if not (isinstance(e, ast.Name) and fresh_list(f, e.id)):
+                return False
+        return True
     for name, f in sorted(mp.methods.items()):
-        for lp in walk_no_nested(f.node):
-            if not (isinstance(lp, ast.For) and
-                    isinstance(lp.target, ast.Name)):
-                continue
-            v = lp.target.id
-            stamps = []
-            for n in ast.walk(ast.Module(body=lp.body, type_ignores=[])):
-                if isinstance(n, ast.Attribute) and \
-                        isinstance(n.ctx, ast.Store):
-                    b = n.value
-                    while isinstance(b, ast.Attribute):
-                        b = b.value
-                    if isinstance(b, ast.Name) and b.id == v:
-                        stamps.append(n)
-            if not stamps:
-                continue
+        stamps = {}
+        for n in walk_no_nested(f.node):
+            if isinstance(n, ast.Attribute) and \
+                    isinstance(n.ctx, ast.Store):
+                b_ = n.value
+                while isinstance(b_, ast.Attribute):
+                    b_ = b_.value
+                if isinstance(b_, ast.Name) and b_.id not in ('self', 'cls') \
+                        and b_.id not in f.params:
+                    stamps.setdefault(b_.id, []).append(n)
+        for v, nodes in sorted(stamps.items()):
             r9.sites += 1
             r9.functions.add(f.fq)
-            it = lp.iter
-            ok = isinstance(it, ast.Name) and fresh_list(f, it.id)
-            r9.ob(ok, '%s|for %s in %s' % (name, v, norm(it, 40)),
-                  {'stamped': [norm(s_, 30) for s_ in stamps]})
+            ok = fresh_local(f, v)
+            r9.ob(ok, '%s|%s' % (name, v),
+                  {'stamped': [norm(s_, 30) for s_ in nodes]})
             if not ok:
-                rep.finding(r9, f.qualname, 'for %s in %s: %s = ...'
-                            % (v, norm(it, 40), norm(stamps[0], 30)),
-                            'stamped-in-place', MAIN, lp.lineno,
-                            '%s is assigned on the elements of %s, which is '
-                            'not evidently a list of copies: the objects '
+                rep.finding(r9, f.qualname, '%s: %s = ...'
+                            % (v, norm(nodes[0], 30)),
+                            'stamped-in-place', MAIN, nodes[0].lineno,
+                            '%s is assigned on %s, which is not evidently a '
+                            'new object (a copy, a constructor result, an '
+                            'element of a list of copies): the objects '
                             'stored in the repository (reference property '
                             'values, instance paths) are changed, and later '
                             'traversals that compare them with host-less '
-                            'paths miss them' % (norm(stamps[0], 30),
-                                                 norm(it, 40)))
+                            'paths miss them' % (norm(nodes[0], 30), v))
     if r9.sites < 3:
-        raise AnalysisError('C13.R9: only %d stamping loops found'
+        raise AnalysisError('C13.R9: only %d completed locals found'
                             % r9.sites)
 
 
